@@ -13,7 +13,7 @@ from litedram.frontend.axi import LiteDRAMAXIPort
 from litedram.frontend.bist import _LiteDRAMBISTGenerator, _LiteDRAMBISTChecker
 
 from ..engine import Sim
-from ..agents import NativeMemSlave, MemGroup, Violations, init_word
+from ..agents import stuck, NativeMemSlave, MemGroup, Violations, init_word
 from .c07 import gen_pattern, gen_extra
 from .c12 import AXISlave
 
@@ -220,6 +220,8 @@ def run(scn):
     while cyc < cap and phase["p"] != "end":
         sim.step()
         cyc += 1
+        if not cyc & 63 and stuck(sim, cyc):
+            break       # no handshake anywhere for 20000 cycles: the run is stuck, do not spin to the cap
     S = sim.S
     if phase["p"] != "end":
         viol.add("hang", "BIST did not finish after %d cycles (phase %s, generator done=%d, checker done=%d)" % (cyc, phase["p"], S[ix(g.done)], S[ix(c.done)]))
